@@ -317,17 +317,49 @@ def _work(args: t.Tuple[int, int, int]) -> t.List[t.Any]:
                 out.append((e, {k2: v for k2, v in obs.items() if k2 != "raw_emit"} | {"raw_emit_hex": obs["raw_emit"].hex()[:400]}, d, diag(s)))
             elif e["call"]["res"] == "LDAPError" and e["src"]["st"] != "CLOSED":
                 # a refused call has no effect: whatever the model allows next must behave as if it had not happened
+                # directed: the next accepted send call (the id it returns and puts on the wire shows whether the refused call
+                # consumed one), directly and after a delivery that retires an operation (a refused call must not have left a
+                # phantom operation behind that keeps a bind from being accepted)
+                sends = [x for x in edges if x["call"]["op"] == "send" and x["call"]["res"] == "ok"]
+                retire = [x for x in edges if x["call"]["op"] == "recv" and x["call"]["res"] == "ok" and x["dst"]["st"] != "CLOSED"
+                          and set(x["src"]["out"]) - set(x["dst"]["out"])]
+                plans = [[x] for x in (sends if len(sends) <= 2 else rnd.sample(sends, 2))]
+                for r_ in (retire if len(retire) <= 2 else rnd.sample(retire, 2)):
+                    nxt = [x for x in _G["bysrc"].get(skey(r_["dst"]), []) if x["call"]["op"] == "send" and x["call"]["res"] == "ok"]
+                    plans += [[r_, x] for x in (nxt if len(nxt) <= 2 else rnd.sample(nxt, 2))]
+                for plan in plans:
+                    sp = copy.deepcopy(s)
+                    for idx, ep in enumerate(plan):
+                        dp = compare(role, ep, do_call(sp, role, ep["call"], rnd))
+                        n += 1
+                        if dp:
+                            s_ = copy.deepcopy(base)
+                            if not any(compare(role, ef, do_call(s_, role, ef["call"], rnd)) for ef in plan[: idx + 1]):
+                                what = f"{e['call'].get('k', e['call']['op'])}"
+                                out.append((ep, {"after_refused": e["call"], "plan": [x["call"] for x in plan]},
+                                            [("C10", f"refused-call-had-effect/{role}/{e['src']['st']}/{what}",
+                                              f"{role} in {e['src']['st']}: the refused call {what} changed what later calls do ({dp[0][2]})")], diag(sp)))
+                            break
                 cur = k
+                followed: t.List[t.Any] = []
                 for _ in range(5):
                     es2 = _G["bysrc"].get(cur)
                     if not es2:
                         break
                     e2 = rnd.choice(es2 if rnd.random() < 0.3 else ([x for x in es2 if x["call"]["res"] == "ok" and x["dst"]["st"] != "CLOSED"] or es2))
                     obs2 = do_call(s, role, e2["call"], rnd)
+                    followed.append(e2)
                     n += 1
                     d2 = compare(role, e2, obs2)
                     if d2:
                         d2 = [(p, sig, txt + f" [after the refused call {e['call'].get('k', e['call']['op'])} id={e['call'].get('id')}]") for p, sig, txt in d2]
+                        # the same calls WITHOUT the refused one: if they behave as the model says, the refused call is what made
+                        # the difference - it had an effect (C10), whatever property the symptom itself belongs to
+                        s_ = copy.deepcopy(base)
+                        if not any(compare(role, ef, do_call(s_, role, ef["call"], rnd)) for ef in followed):
+                            what = f"{e['call'].get('k', e['call']['op'])}"
+                            d2.append(("C10", f"refused-call-had-effect/{role}/{e['src']['st']}/{what}",
+                                       f"{role} in {e['src']['st']}: the refused call {what} changed what later calls do ({d2[0][2]})"))
                         out.append((e2, {k2: v for k2, v in obs2.items() if k2 != "raw_emit"} | {"after_refused": e["call"]}, d2, diag(s)))
                         break
                     cur = skey(e2["dst"])
